@@ -21,8 +21,8 @@
    ndim > 1) likewise without the factor; mask (2-d, or each slice of a 3-d cube) = util.rescale(order 0, 'constant'),
    re-binarised, cast to int; _plane_slice (IndexError on an empty mask/segment); pixelscale/scale per axis.
    Plane.resample: ValueError without pixel scale, NotImplementedError if non-uniform, else rescale(ps/new).
-   The model follows the code as it is, including two findings: an integer/bool array is refused with ValueError
-   (np.finfo), and a scalar amplitude is not divided by the scale.
+   util.rescale first casts an integer/bool image to float (value-preserving), so the dtype flag [qint] of an input
+   array has no influence; a scalar (0-d) amplitude is divided by the scale like an array amplitude.
    A sample of the model is therefore [Known v] (the value is pinned), [NonZero] (only v <> 0 is
    pinned: a nearest-neighbour sample times a post-mask weight in [1/4, 1]) or [Unknown]. *)
 From Coq Require Export QArith Qcanon Qround.
@@ -82,9 +82,9 @@ Definition sample (o : interp) (img : qarr) (y x : Qc) : samp :=
       end
   end.
 
-(* np.finfo(mask.dtype) raises ValueError for an integer/bool image (mask = zeros_like(img).real) *)
+(* img = np.asarray(img); integer/bool dtypes are cast with .astype(float): the samples keep their (rational) values,
+   so [qint img] is not consulted.  The call itself never raises (result type kept for the monadic plumbing). *)
 Definition util_rescale (o : interp) (img : qarr) (s : Qc) : result oarr :=
-  if qint img then Err ValueError else
   let N := rescale_shape (qnr img) s in let M := rescale_shape (qnc img) s in
   Ok (mkO N M (fun i j => sample o img (coord (qnr img) N s i) (coord (qnc img) M s j))).
 
@@ -107,7 +107,7 @@ Definition binarise (x : samp) : samp :=
 
 Definition rescale_fld (f : fld) (s : Qc) (post : Qc -> Qc) : result ofld :=
   match f with
-  | FScalar v => Ok (OScalar v)                       (* ndim <= 1: left alone, NOT divided by scale *)
+  | FScalar v => Ok (OScalar (post v))                (* ndim <= 1: amplitude/scale (the else branch); opd: post = id *)
   | FArr a => rbind (util_rescale Cubic a s) (fun r => Ok (OArr (omap (smap post) r)))
   end.
 
@@ -145,6 +145,14 @@ Definition plane_rescale (P : plane) (s : Qc) : result oplane :=
   rbind (rescale_fld (p_opd P) s (fun v => v)) (fun o =>
   rbind (rescale_msk (p_mask P) s) (fun m =>
   Ok (mkOPlane a o m (rescale_ps (p_ps P) s))))).
+
+(* the float cast of an array / of every array of a plane *)
+Definition as_float (a : qarr) : qarr := mkQ (qnr a) (qnc a) (qget a) false.
+Definition fld_as_float (f : fld) : fld := match f with FScalar v => FScalar v | FArr a => FArr (as_float a) end.
+Definition msk_as_float (m : msk) : msk :=
+  match m with MScalar v => MScalar v | MMono a => MMono (as_float a) | MCube l => MCube (map as_float l) end.
+Definition plane_as_float (P : plane) : plane :=
+  mkPlane (fld_as_float (p_amp P)) (fld_as_float (p_opd P)) (msk_as_float (p_mask P)) (p_ps P).
 
 Definition qeqb (x y : Qc) : bool := match (x ?= y)%Qc with Eq => true | _ => false end.
 
